@@ -34,7 +34,9 @@ TECHNIQUE = (
     "model and the handle_request transcript over a generated, state-carrying request history are compared byte by byte "
     "(security seeds masked); the masked seeds themselves are compared for freshness: seeds answered to the same request in two "
     "processes and to successive requestSeed requests of one history must not repeat; the session graph is walked with real "
-    "DiagnosticSessionControl requests"
+    "DiagnosticSessionControl requests, also for further configurations per configuration whose list arguments name entries more than once; "
+    "in part of the processes the same server object is shut down and started again (teardown(), setup()) and its second model and its "
+    "answers to the same history are compared with those of its first life"
 )
 LEVEL_TEXT = (
     "Exploration: 16 (quick) / 304 (thorough) configurations (+ 2 boundary-seed and 3 focus configurations in both tiers) = seed x randomness parameters (probabilities 0, 0.05, 0.5, 1; "
@@ -45,7 +47,12 @@ LEVEL_TEXT = (
     "requests, random bytes; in the focus configurations - ReadDTCInformation, SecurityAccess and the identifier services mandatory and "
     "answering positively - additionally requestSeed directly followed by a request answered from stateful_rng, and 19 02 <mask> in every session).  "
     "Every history with SecurityAccess in the model yields pairs of handed-out seeds (same request in two processes; successive requestSeed "
-    "requests in one process) that are checked for freshness.  Held means: no difference (and no repeated security seed) was observed on these configurations, histories and environments."
+    "requests in one process) that are checked for freshness.  Per configuration 6 further configurations (own seeds; mandatory/optional session and service lists with repeated entries: a b a, the list twice, "
+    "the list and its reverse, random repeats, adjacent pairs, the default session repeated; p_session 0, 0.02, 0.5 or the configuration's own (at most 0.05); a third through the CLI/config path) are "
+    "built in the walk process and judged for mandatory parts, reachability and return like the configuration itself.  In 2 (quick) / 3 (thorough) of the processes "
+    "of every configuration the server object is restarted after the history (left in the default session by 10 01, teardown(), setup()) and asked the same history again; "
+    "the walk process restarts its ECU without having asked it anything.  "
+    "Held means: no difference (and no repeated security seed) was observed on these configurations, histories and environments."
 )
 LEVEL_NOTE = (
     "Trusted: the comparison/masking logic and the BFS in vf/checks/c16.py; the request generators in vf/gen_uds.py. "
@@ -63,7 +70,11 @@ RULE = (
     "environments of every configuration first run the whole history (plus the history's stateful requests in up to 12 of its own sessions) "
     "against another RandomUDSServer with a different seed in the same interpreter; freshness of security seeds: per configuration, "
     "pairs of seeds of >= 2 bytes each (same history index in two processes / successive seeds of one process) - at least 8 pairs of "
-    "one kind that are ALL equal, or any equal pair of seeds of >= 8 bytes, is a verdict"
+    "one kind that are ALL equal, or any equal pair of seeds of >= 8 bytes, is a verdict; siblings = per configuration 6 (seed, arguments) "
+    "pairs derived from it by naming 2..10 non-default mandatory sessions (the configuration's own ones first) more than once in six patterns "
+    "(and, with probability 0.3-0.4 each, repeating entries of the other three lists), judged structurally only (model dump + walks in one "
+    "process); restart = the object under test of a process is set up a second time after teardown(): second model == first model always, "
+    "second transcript == first transcript when the last reply of the first life was 50 01 to 10 01 (or nothing had been asked)"
 )
 ASSUMPTIONS = [
     "security-access seeds (positive replies 67 <odd> ...) are exempt including their length (an empty seed occurs in about 6% of the "
@@ -86,6 +97,13 @@ ASSUMPTIONS = [
     "reachability walks are judged only under default behaviour flags (the statement quantifies over randomness parameters)",
     "'in different processes' includes processes that hold more than one virtual ECU: what another RandomUDSServer instance (other seed, same "
     "arguments) was asked before in the same interpreter must not change the model or any answer of the ECU under test",
+    "list arguments that name an entry more than once (--mandatory-sessions 2 3 2) are arguments like any other: RandomnessParameters and the "
+    "command line accept them and the statement quantifies over all mandatory/optional lists; nothing is demanded about how the model for "
+    "[2, 3, 2] relates to the model for [2, 3] - only that mandatory parts are present and every offered session is reachable and can return",
+    "'started ... at different times' includes the same server object started again: setup() -> [requests] -> teardown() -> setup() is an ECU "
+    "started with the same seed and the same arguments, so its model must be the one of its first life.  Its answers are compared with the "
+    "first life only when the tester left it in the default session (last reply 50 01 to 10 01) or had asked nothing, because what an ECU "
+    "state (session, security level, pending seed) does across a restart is not part of the statement",
 ]
 EXHAUSTIVE = {"quick": False, "thorough": False}
 EXHAUSTIVE_NOTE = "per configuration every offered session is walked (exhaustive over the sessions of the observed model)"
@@ -184,11 +202,11 @@ def child_main(spec_file: str, out_file: str) -> int:
     seed = spec["seed"]
     target = "tcp://127.0.0.1:20162"
 
-    def construct(seed: Any = seed) -> Any:
+    def construct(seed: Any = seed, args: dict[str, Any] = args, ctor: Any = env.get("ctor")) -> Any:
         if grand:
             for _ in range(int(grand["calls"]) % 7 + 1):
                 _random.random()
-        if env.get("ctor") in ("cli", "cli-int"):
+        if ctor in ("cli", "cli-int"):
             from gallia.commands.script.vecu import RngVirtualECU, RngVirtualECUConfig
 
             cli: dict[str, Any] = {}
@@ -202,7 +220,7 @@ def child_main(spec_file: str, out_file: str) -> int:
             for k, v in behavior.items():
                 cli[k] = "true" if v else "false"
             # "cli": the seed as the command line delivers it (a string); "cli-int": as a config file / API caller gives it
-            cfg = RngVirtualECUConfig(target=target, seed=(int(seed) if env.get("ctor") == "cli-int" else str(seed)), **cli)
+            cfg = RngVirtualECUConfig(target=target, seed=(int(seed) if ctor == "cli-int" else str(seed)), **cli)
             return RngVirtualECU(cfg)._server()
         return S.RandomUDSServer(seed, S.RandomUDSServer.RandomnessParameters(**args), S.RandomUDSServer.Behavior(**behavior))
 
@@ -306,6 +324,117 @@ def child_main(spec_file: str, out_file: str) -> int:
         info["sessions"] = len(om)
         return info
 
+    async def walk_model(canon: dict[str, Any], make: Any, fresh_budget: int, shared: Any = None) -> list[dict[str, Any]]:
+        """Every session of the dumped model: driven from the default session along the offered DiagnosticSessionControl
+        sub-functions and back, with real 10 xx requests (the first fresh_budget walks on servers of their own from make(),
+        the others on one shared server that is put back into its initial state before every walk)."""
+        M = {int(s): {int(k): v for k, v in d.items()} for s, d in canon.items()}
+
+        def edges(a: int) -> list[int]:
+            return [b for b in (M.get(a, {}).get(DSC) or []) if b in M]
+
+        def bfs(src: int) -> dict[int, list[int]]:
+            paths = {src: [src]}
+            todo = [src]
+            while todo:
+                a = todo.pop(0)
+                for b in edges(a):
+                    if b not in paths:
+                        paths[b] = paths[a] + [b]
+                        todo.append(b)
+            return paths
+
+        from_default = bfs(1) if 1 in M else {}
+        walks = []
+        for s in sorted(M):
+            w: dict[str, Any] = {"session": s, "path": from_default.get(s), "reached": None, "back": None, "back_path": None}
+            walks.append(w)
+            if s not in from_default:
+                continue
+            if fresh_budget > 0:
+                fresh_budget -= 1
+                srv = make()
+                await srv.setup()
+                w["fresh_server"] = True
+            else:
+                if shared is None:
+                    shared = make()
+                    await shared.setup()
+                srv = shared
+                srv.state.reset()
+                w["fresh_server"] = False
+            tr = S.UDSServerTransport(srv, TargetURI(target))
+            ok = int(srv.state.session) == 1
+            log = []
+            for hop in from_default[s][1:]:
+                rep, _ = await tr.handle_request(bytes([DSC, hop]))
+                log.append([f"10{hop:02x}", None if rep is None else bytes(rep).hex()])
+                if rep is None or len(rep) < 2 or rep[0] != 0x50 or rep[1] != hop or int(srv.state.session) != hop:
+                    ok = False
+                    break
+            w["reached"] = ok
+            w["log"] = log[-4:]
+            if not ok:
+                continue
+            back = bfs(s).get(1)
+            w["back_path"] = back
+            if back is not None:
+                good = True
+                for hop in back[1:]:
+                    rep, _ = await tr.handle_request(bytes([DSC, hop]))
+                    log.append([f"10{hop:02x}", None if rep is None else bytes(rep).hex()])
+                    if rep is None or len(rep) < 2 or rep[0] != 0x50 or rep[1] != hop or int(srv.state.session) != hop:
+                        good = False
+                        break
+                w["back"] = ("dsc-direct" if len(back) <= 2 else "dsc-path") if good else "dsc-refused"
+                w["log"] = log[-4:]
+            else:
+                for sf in M[s].get(RESET) or []:
+                    rep, _ = await tr.handle_request(bytes([RESET, sf]))
+                    if rep is not None and len(rep) >= 2 and rep[0] == 0x51 and int(srv.state.session) == 1:
+                        w["back"] = "ecu-reset"
+                        break
+        return walks
+
+    def describe(server: Any) -> dict[str, Any]:
+        rp = server.randomness_parameters
+        return {
+            "params_effective": {
+                "mandatory_sessions": [int(x) for x in rp.mandatory_sessions],
+                "optional_sessions": [int(x) for x in rp.optional_sessions],
+                "mandatory_services": [int(x) for x in rp.mandatory_services],
+                "optional_services": [int(x) for x in rp.optional_services],
+                **{p: float(getattr(rp, p)) for p in PROBS},
+            },
+            "behavior_effective": {f: bool(getattr(server.behavior, f)) for f in BEHAVIOR_FLAGS},
+            "seed_effective": repr(server.seed),
+        }
+
+    async def sibling(sib: dict[str, Any]) -> dict[str, Any]:
+        """A further configuration (own seed, the list arguments name entries more than once) of which only the structural half of
+        the statement is observed: the model after setup() and the walks through it."""
+        o: dict[str, Any] = {"seed": sib["seed"], "args": sib["args"], "ctor": sib["ctor"], "pattern": sib["pattern"]}
+
+        def make() -> Any:
+            return construct(sib["seed"], sib["args"], sib["ctor"])
+
+        try:
+            srv = make()
+        except Exception as e:
+            o["construct_error"] = f"{type(e).__name__}: {str(e)[:300]}"
+            return o
+        o.update(describe(srv))
+        try:
+            await srv.setup()
+        except Exception as e:
+            o["setup_error"] = f"{type(e).__name__}: {str(e)[:300]}"
+            return o
+        canon, _ = dump_model(srv)
+        o["model"] = canon
+        o["supported_services_same"] = dump_model(type("X", (), {"services": srv.supported_services})())[0] == canon
+        o["walks"] = await walk_model(canon, make, 0, srv)
+        return o
+
     keep_alive: list[Any] = []
 
     async def main() -> None:
@@ -319,16 +448,7 @@ def child_main(spec_file: str, out_file: str) -> int:
             out["construct_error"] = f"{type(e).__name__}: {str(e)[:300]}"
             out["ok"] = True
             return
-        rp = server.randomness_parameters
-        out["params_effective"] = {
-            "mandatory_sessions": [int(x) for x in rp.mandatory_sessions],
-            "optional_sessions": [int(x) for x in rp.optional_sessions],
-            "mandatory_services": [int(x) for x in rp.mandatory_services],
-            "optional_services": [int(x) for x in rp.optional_services],
-            **{p: float(getattr(rp, p)) for p in PROBS},
-        }
-        out["behavior_effective"] = {f: bool(getattr(server.behavior, f)) for f in BEHAVIOR_FLAGS}
-        out["seed_effective"] = repr(server.seed)
+        out.update(describe(server))
         out["stage"] = "setup"
         try:
             await server.setup()
@@ -360,78 +480,33 @@ def child_main(spec_file: str, out_file: str) -> int:
             out["other"]["dtc_read_in_session_read_by_other"] = sum(
                 1 for ss, item, (r, _) in zip(d["sessions"], history, transcript) if item.startswith("1902") and r.startswith("5902") and ss in dtc_sessions)
 
+        # ---- second life: the same object is shut down and started again ------------------------
+        if spec.get("second_life"):
+            out["stage"] = "second-life"
+            # a tester that leaves the ECU in its default session before the ECU is shut down (nothing was asked: nothing to leave)
+            closing = ["1001"] if history else []
+            dc = await drive(server, closing, False)
+            sl: dict[str, Any] = {"served_before": len(history) + len(closing), "closing": [x[0] for x in dc["transcript"]],
+                                  "clean": all(x[0] == "5001" for x in dc["transcript"])}
+            out["second_life"] = sl
+            await server.teardown()
+            try:
+                await server.setup()
+            except Exception as e:
+                sl["setup_error"] = f"{type(e).__name__}: {str(e)[:300]}"
+            else:
+                sl["model"] = dump_model(server)[0]
+                d2 = await drive(server, history, False)
+                sl["transcript"] = d2["transcript"]
+                sl["seeds"] = d2["seeds"]
+                sl["max_gap"] = d2["max_gap"]
+
         # ---- walks ----------------------------------------------------------------------------
         if spec.get("walk"):
             out["stage"] = "walk"
-            M = {int(s): {int(k): v for k, v in d.items()} for s, d in canon.items()}
-
-            def edges(a: int) -> list[int]:
-                return [b for b in (M.get(a, {}).get(DSC) or []) if b in M]
-
-            def bfs(src: int) -> dict[int, list[int]]:
-                paths = {src: [src]}
-                todo = [src]
-                while todo:
-                    a = todo.pop(0)
-                    for b in edges(a):
-                        if b not in paths:
-                            paths[b] = paths[a] + [b]
-                            todo.append(b)
-                return paths
-
-            from_default = bfs(1) if 1 in M else {}
-            walks = []
-            shared = None
-            fresh_budget = 12
-            for s in sorted(M):
-                w: dict[str, Any] = {"session": s, "path": from_default.get(s), "reached": None, "back": None, "back_path": None}
-                walks.append(w)
-                if s not in from_default:
-                    continue
-                if fresh_budget > 0:
-                    fresh_budget -= 1
-                    srv = construct()
-                    await srv.setup()
-                    w["fresh_server"] = True
-                else:
-                    if shared is None:
-                        shared = construct()
-                        await shared.setup()
-                    srv = shared
-                    srv.state.reset()
-                    w["fresh_server"] = False
-                tr = S.UDSServerTransport(srv, TargetURI(target))
-                ok = int(srv.state.session) == 1
-                log = []
-                for hop in from_default[s][1:]:
-                    rep, _ = await tr.handle_request(bytes([DSC, hop]))
-                    log.append([f"10{hop:02x}", None if rep is None else bytes(rep).hex()])
-                    if rep is None or len(rep) < 2 or rep[0] != 0x50 or rep[1] != hop or int(srv.state.session) != hop:
-                        ok = False
-                        break
-                w["reached"] = ok
-                w["log"] = log[-4:]
-                if not ok:
-                    continue
-                back = bfs(s).get(1)
-                w["back_path"] = back
-                if back is not None:
-                    good = True
-                    for hop in back[1:]:
-                        rep, _ = await tr.handle_request(bytes([DSC, hop]))
-                        log.append([f"10{hop:02x}", None if rep is None else bytes(rep).hex()])
-                        if rep is None or len(rep) < 2 or rep[0] != 0x50 or rep[1] != hop or int(srv.state.session) != hop:
-                            good = False
-                            break
-                    w["back"] = ("dsc-direct" if len(back) <= 2 else "dsc-path") if good else "dsc-refused"
-                    w["log"] = log[-4:]
-                else:
-                    for sf in M[s].get(RESET) or []:
-                        rep, _ = await tr.handle_request(bytes([RESET, sf]))
-                        if rep is not None and len(rep) >= 2 and rep[0] == 0x51 and int(srv.state.session) == 1:
-                            w["back"] = "ecu-reset"
-                            break
-            out["walks"] = walks
+            out["walks"] = await walk_model(canon, construct, 12)
+            out["stage"] = "siblings"
+            out["siblings"] = [await sibling(sib) for sib in spec.get("siblings") or []]
         out["stage"] = "done"
         out["ok"] = True
 
@@ -507,6 +582,19 @@ def required_reach(tier: str) -> dict[str, int]:
         # seed 0 / "0" through RngVirtualECU(RngVirtualECUConfig(...))._server(): cli-path processes compared with the baseline
         "seed0.cli-path-processes-compared": 4,
         "seed0.configs-with-two-cli-processes": 2,
+        # further configurations whose list arguments name entries more than once (judged like the configuration's own model)
+        "repeats.models-judged": 60 if q else 900,
+        "repeats.mandatory-session-named-again-after-another-one": 40 if q else 600,
+        "repeats.repeated-mandatory-sessions-in-model": 100 if q else 1500,
+        "repeats.sessions-reached": 300 if q else 5000,
+        "repeats.sessions-returned-to-default": 300 if q else 5000,
+        "repeats.through-cli-config-path": 15 if q else 200,
+        # the same server object shut down and started again: second model / second transcript against the first life
+        "restart.second-life-models-compared": 40 if q else 600,
+        "restart.after-serving-requests": 20 if q else 300,
+        "restart.without-serving-requests": 10 if q else 150,
+        "restart.second-life-transcripts-compared": 15 if q else 250,
+        "restart.second-life-replies-compared": 1500 if q else 25000,
     }
 
 
@@ -630,6 +718,85 @@ def gen_config(vseed: int, i: int) -> dict[str, Any]:
     }
 
 
+# ---- list arguments that name an entry more than once ------------------------------------------------------------------------
+# RandomnessParameters and the command line accept `--mandatory-sessions 2 3 2`; the statement quantifies over all lists.  Per
+# configuration N_SIBLINGS further configurations ("siblings": own seeds, the configuration's probabilities and lists, but the
+# lists with repeated entries in several patterns) are built in the walk process and judged like the configuration's own model:
+# mandatory parts present, every offered session reachable from the default session and able to return.
+N_SIBLINGS = 6
+REPEAT_PATTERNS = ["a-b-a", "whole-list-twice", "list-then-reversed", "random-repeats", "adjacent-pairs", "default-session-repeated"]
+
+
+def with_repeats(rng: random.Random, pattern: str, L: list[int]) -> list[int]:
+    """L (distinct entries, at least two) with entries named more than once."""
+    if pattern == "a-b-a":
+        return [L[0], L[1], L[0]] + L[2:]
+    if pattern == "whole-list-twice":
+        return L + L
+    if pattern == "list-then-reversed":
+        return L + L[::-1]
+    if pattern == "random-repeats":
+        out = L + [rng.choice(L) for _ in range(rng.randint(1, len(L) + 1))]
+        rng.shuffle(out)
+        return out
+    if pattern == "adjacent-pairs":
+        return [x for x in L for _ in range(2)]
+    if pattern == "default-session-repeated":
+        return [1, L[0], 1] + L[1:] + [L[0]]
+    raise ValueError(pattern)
+
+
+def interleaved_repeat(lst: list[int], ignore: int | None = None) -> bool:
+    """an entry is named again after a different entry (other than `ignore`) was named in between"""
+    for i, x in enumerate(lst):
+        if x == ignore:
+            continue
+        for k in range(i + 2, len(lst)):
+            if lst[k] == x and any(y not in (x, ignore) for y in lst[i + 1:k]):
+                return True
+    return False
+
+
+def gen_siblings(vseed: int, cfg: dict[str, Any]) -> list[dict[str, Any]]:
+    rng = random.Random(f"C16/{vseed}/repeats/{cfg['index']}")
+    out = []
+    own = [x for x in dict.fromkeys(cfg["args"].get("mandatory_sessions", [1])) if x != 1]
+    for j in range(N_SIBLINGS):
+        args = dict(cfg["args"])
+        pattern = REPEAT_PATTERNS[j % len(REPEAT_PATTERNS)]
+        # the non-default sessions to be named: the configuration's own ones (at most 10 of them), filled up to at least two
+        L = rng.sample(own, min(len(own), rng.randint(2, 10)))
+        while len(L) < 2 or (len(L) < 6 and rng.random() < 0.4):
+            x = rng.choice([2, 3, 4, rng.randrange(2, 0x7F), rng.randrange(0x40, 0x7F)])
+            if x not in L:
+                L.append(x)
+        args["mandatory_sessions"] = with_repeats(rng, pattern, L)
+        k = rng.random()
+        if k < 0.35:
+            args["p_session"] = 0  # none of them is discovered randomly: all are attached afterwards
+        elif k < 0.6:
+            args["p_session"] = 0.02
+        elif k < 0.7:
+            args["p_session"] = 0.5
+        elif args.get("p_session", 0.05) > 0.05:
+            args["p_session"] = 0.05  # (keeps the siblings of the configurations with more than a hundred sessions small)
+        if rng.random() < 0.4:
+            o = list(dict.fromkeys(args.get("optional_sessions", [2, 3, 4, 0x40, 0x41])))[:40]
+            if o:
+                args["optional_sessions"] = with_repeats(rng, "random-repeats", o) if len(o) > 1 else o * 2
+        if rng.random() < 0.4:
+            m = list(dict.fromkeys(args.get("mandatory_services", [DSC])))
+            if m:  # an empty list stays empty (DiagnosticSessionControl is never added here)
+                args["mandatory_services"] = with_repeats(rng, rng.choice(["whole-list-twice", "random-repeats"]), m) if len(m) > 1 else m * 2
+        if rng.random() < 0.3 and args.get("optional_services"):
+            o = list(dict.fromkeys(args["optional_services"]))
+            args["optional_services"] = o + rng.sample(o, rng.randint(1, len(o)))
+        seed: Any = [j + rng.randrange(100), rng.getrandbits(63), rng.choice(["abc", "ecu-7", "ß中", "17"]) + str(j)][j % 3] if j % 4 else (
+            cfg["seed"] + j + 1 if isinstance(cfg["seed"], int) else f"{cfg['seed']}/{j}")
+        out.append({"seed": seed, "args": args, "pattern": pattern, "ctor": "cli" if isinstance(seed, int) and j % 2 else "direct"})
+    return out
+
+
 def make_envs(tier: str, cfg: dict[str, Any], rng: random.Random) -> list[dict[str, Any]]:
     numeric = isinstance(cfg["seed"], int) or bool(cfg.get("seed0"))
     cli = "cli" if numeric else "direct"
@@ -652,12 +819,16 @@ def make_envs(tier: str, cfg: dict[str, Any], rng: random.Random) -> list[dict[s
         {"hashseed": "4242", "imp": "server", "ctor": cli, "grand": g1, "clock": 0, "other": other},
         {"hashseed": "random", "imp": "tree", "ctor": cli, "grand": g2, "clock": 1e9, "other": None},
     ]
+    # "second_life": after the history the same server object is left in the default session (10 01), shut down (teardown()) and
+    # started again (setup()), and asked the same history again; judged within the process (first life vs second life), so it is
+    # no dimension of the cross-process comparison.  (The walk process restarts its ECU without having asked it anything.)
+    envs[0]["second_life"] = envs[1]["second_life"] = True  # (the two environments that are run even when time is short)
     if cfg.get("seed0"):
         # the boundary seed once more as an int through the config object, in a process that differs in nothing else
         envs.append(dict(envs[0], ctor="cli-int"))
     if tier != "quick":
         envs.append({"hashseed": str(rng.randrange(2, 2**32)), "imp": "server", "ctor": "direct", "grand": dict(g2, calls=g2["calls"] + 13), "clock": -1.7e9, "other": None})
-        envs.append({"hashseed": "random", "imp": "tree", "ctor": "direct", "grand": None, "clock": 3e9, "other": other})
+        envs.append({"hashseed": "random", "imp": "tree", "ctor": "direct", "grand": None, "clock": 3e9, "other": other, "second_life": True})
     return envs
 
 
@@ -815,14 +986,15 @@ class Runner:
         self.n = 0
         self.cpu = 0.0
 
-    def child(self, cfg: dict[str, Any], env: dict[str, Any], history: list[str], walk: bool, tag: str) -> dict[str, Any]:
+    def child(self, cfg: dict[str, Any], env: dict[str, Any], history: list[str], walk: bool, tag: str,
+              siblings: list[dict[str, Any]] | None = None) -> dict[str, Any]:
         """One interpreter process.  Returns the child's report or {'timeout': ...} / raises HarnessProblem."""
         self.n += 1
         stem = f"c{cfg['index']}-{tag}-{self.n}-{time.monotonic_ns() % 10**9}"
         spec_file = self.scratch / f"{stem}.spec.json"
         out_file = self.scratch / f"{stem}.out.json"
         spec = {"seed": cfg["seed"], "args": cfg["args"], "behavior": cfg["behavior"], "env": env, "history": history, "walk": walk,
-                "hang_after": self.timeout - 8}
+                "second_life": bool(walk or env.get("second_life")), "siblings": siblings or [], "hang_after": self.timeout - 8}
         spec_file.write_text(json.dumps(spec))
         penv = dict(os.environ)
         penv["PYTHONHASHSEED"] = env["hashseed"]
@@ -1019,10 +1191,10 @@ def run_config(rn: Runner, tier: str, vseed: int, cfg: dict[str, Any], deadline_
     envs = make_envs(tier, cfg, rng)
     base_w = {"seed": cfg["seed"], "args": cfg["args"], "behavior": cfg["behavior"], "label": cfg["label"]}
 
-    def run_child(env: dict[str, Any], history: list[str], walk: bool, tag: str) -> dict[str, Any] | None:
-        res = rn.child(cfg, env, history, walk, tag)
+    def run_child(env: dict[str, Any], history: list[str], walk: bool, tag: str, siblings: list[dict[str, Any]] | None = None) -> dict[str, Any] | None:
+        res = rn.child(cfg, env, history, walk, tag, siblings)
         if res.get("timeout"):
-            res2 = rn.child(cfg, env, history, walk, tag + "r")
+            res2 = rn.child(cfg, env, history, walk, tag + "r", siblings)
             if res2.get("timeout"):
                 tb = res2.get("stderr", "")
                 in_server = "gallia/services/uds/server.py" in tb.split("Timeout (")[-1][:1500]
@@ -1036,15 +1208,18 @@ def run_config(rn: Runner, tier: str, vseed: int, cfg: dict[str, Any], deadline_
             bump("child.timeout-then-ok")
             return res2
         if res.get("max_gap", 0) > MAX_GAP:
-            res2 = rn.child(cfg, env, history, walk, tag + "g")
+            res2 = rn.child(cfg, env, history, walk, tag + "g", siblings)
             if res2.get("timeout") or res2.get("max_gap", 0) > MAX_GAP:
                 rep["timeouts"].append(f"config {cfg['index']} {tag}: gap between requests above {MAX_GAP}s twice (machine too loaded)")
                 return None
             return res2
         return res
 
+    def second_life(res: dict[str, Any], env: dict[str, Any], history: list[str], tag: str) -> None:
+        judge_second_life(res, env, history, base_w, viol, bump)
+
     # ---- phase 1: walk child in the baseline environment (no history): model, mandatory parts, reachability
-    w = run_child(envs[0], [], True, "walk")
+    w = run_child(envs[0], [], True, "walk", gen_siblings(vseed, cfg))
     if w is None:
         return rep
     if sorted(w.get("enum_services", [])) != sorted(ALL_SERVICES):
@@ -1058,6 +1233,8 @@ def run_config(rn: Runner, tier: str, vseed: int, cfg: dict[str, Any], deadline_
         model = w["model"]
         rep["model"] = ow["model"]
         judge_model(cfg, w, viol, bump, base_w)
+        judge_siblings(cfg, w, viol, bump)
+    second_life(w, envs[0], [], "walk")
     # ---- phase 2: the same history in every environment
     history = (gen_history(random.Random(f"C16/{vseed}/hist/{cfg['index']}/{cfg['history_seed']}"), model, cfg["history_len"], bool(cfg.get("focus")))
                if model else ["1001", "3e00"])
@@ -1125,6 +1302,7 @@ def run_config(rn: Runner, tier: str, vseed: int, cfg: dict[str, Any], deadline_
             continue
         env = envs[k]
         rep["cases"].append(((repr(cfg["seed"]), json.dumps(cfg["args"], sort_keys=True), json.dumps(cfg["behavior"], sort_keys=True), hash_hist(history), json.dumps(env, sort_keys=True)), distinct >= 3))
+        second_life(rk, env, history, f"e{k}")
         if k == 0:
             continue
         ok_ = observation(rk)
@@ -1279,6 +1457,90 @@ def judge_model(cfg: dict[str, Any], w: dict[str, Any], viol: Any, bump: Any, ba
                  {**wit0, "session": s, "path": x["path"], "services": sorted(M[s]), "dsc": M[s].get(DSC)})
 
 
+def judge_second_life(res: dict[str, Any], env: dict[str, Any], history: list[str], base_w: dict[str, Any], viol: Any, bump: Any) -> None:
+    """The same server object, shut down and started again (setup -> [requests] -> teardown -> setup), is an ECU started with the
+    same seed and the same arguments at a different time: identical model, and - when it was left in the default session - the
+    identical answers to the same history as in its first life."""
+    sl = res.get("second_life")
+    if not sl or "model" not in res:
+        return
+    wit = {**base_w, "kind": "restart", "env_a": env, "env_b": env, "history": history, "env_brief_a": env_brief(env), "env_brief_b": env_brief(env),
+           "served_before_restart": sl["served_before"], "closing_replies": sl["closing"]}
+    bump("restart.same-object-started-again")
+    if sl["served_before"]:
+        bump("restart.after-serving-requests")
+        bump("restart.requests-served-in-first-life", sl["served_before"])
+    else:
+        bump("restart.without-serving-requests")
+    if "setup_error" in sl:
+        viol("setup-outcome/differs-across/restart-of-same-object", "the second setup() of a server object raises although the first one did not",
+             {**wit, "detail": {"second_setup": sl["setup_error"]}})
+        return
+    a = {"outcome": "ok", "model": json.dumps(res["model"], sort_keys=True), "transcript": res.get("transcript") or []}
+    b = {"outcome": "ok", "model": json.dumps(sl["model"], sort_keys=True), "transcript": sl["transcript"]}
+    bump("restart.second-life-models-compared")
+    if a["model"] != b["model"]:
+        _, detail = compare(a, b)
+        viol("model/differs-across/restart-of-same-object", "the model differs between the first and the second setup() of the same server object (same seed, same arguments)",
+             {**wit, "detail": detail})
+        return
+    if not history:
+        return
+    if not sl["clean"]:
+        bump("restart.not-left-in-default-session")  # the state carried over is not the statement's business
+        return
+    if sl.get("max_gap", 0) > MAX_GAP:
+        bump("restart.second-life-discarded-gap")
+        return
+    kind, detail = compare(a, b)
+    bump("restart.second-life-transcripts-compared")
+    bump("restart.second-life-replies-compared", detail.get("compared", detail.get("index", 0)))
+    if kind is not None:
+        idx = detail["index"]
+        viol(f"transcript/differs-across/restart-of-same-object/sid-{sid_of(history, idx)}",
+             f"after teardown() and a second setup() the same server object answers request #{idx} of the same history differently than in its first life",
+             {**wit, "detail": detail, "request": history[idx] if idx < len(history) else None})
+
+
+def judge_siblings(cfg: dict[str, Any], w: dict[str, Any], viol: Any, bump: Any) -> None:
+    """The sibling configurations (list arguments with repeated entries) of the walk process, judged like the configuration itself."""
+    for sib in w.get("siblings") or []:
+        bump("repeats.configurations")
+        bump("repeats.pattern." + sib["pattern"])
+        if "construct_error" in sib or "setup_error" in sib:
+            # a list with repeated entries that is refused is no model to judge; (all of them refused: the reach requirement fails)
+            bump("repeats.refused")
+            print(f"config {cfg['index']}: sibling {sib['seed']!r} {sib['pattern']}: {sib.get('construct_error') or sib.get('setup_error')}", file=sys.stderr)
+            continue
+        pe = sib["params_effective"]
+        named = pe["mandatory_sessions"]
+        if len(named) == len(set(named)):
+            raise HarnessProblem(f"sibling without a repeated mandatory session: asked for {sib['args'].get('mandatory_sessions')}, effective {named}")
+        before: dict[str, int] = {}
+        found: list[tuple[str, str, dict[str, Any]]] = []
+
+        def sbump(name: str, n: int = 1) -> None:
+            before[name] = before.get(name, 0) + n
+
+        base = {"seed": sib["seed"], "args": sib["args"], "behavior": cfg["behavior"], "label": f"{cfg['label']}/repeated-list-entries/{sib['pattern']}",
+                "constructor_path": sib["ctor"], "sibling_of_config": cfg["index"]}
+        judge_model({"index": cfg["index"]}, sib, lambda k, what, wit: found.append((k, what, wit)), sbump, base)
+        bump("repeats.models-judged")
+        if interleaved_repeat(named, ignore=1):
+            bump("repeats.mandatory-session-named-again-after-another-one")
+        if any(len(v) != len(set(v)) for k, v in pe.items() if isinstance(v, list) and k != "mandatory_sessions"):
+            bump("repeats.other-list-with-repeats")
+        if sib["ctor"] == "cli":
+            bump("repeats.through-cli-config-path")
+        M = {int(s) for s in sib["model"]}
+        bump("repeats.repeated-mandatory-sessions-in-model", len({x for x in named if named.count(x) > 1 and x in M}))
+        bump("repeats.sessions-reached", before.get("walk.sessions-reached", 0))
+        bump("repeats.sessions-returned-to-default", before.get("walk.returned-to-default", 0))
+        bump("repeats.multi-hop-walks", before.get("walk.multi-hop", 0))
+        for k, what, wit in found:
+            viol(k, what + " [configuration with repeated list entries]", wit)
+
+
 def run(ctx: Any, params: dict[str, Any]) -> None:
     scratch = ctx.mkscratch()
     rn = Runner(scratch, float(os.environ.get("VERIF_C16_CHILD_TIMEOUT", 60.0 if ctx.tier == "quick" else 120.0)))
@@ -1344,6 +1606,14 @@ def replay(ctx: Any, witness: dict[str, Any]) -> None:
         return
     ea, eb = witness["env_a"], witness["env_b"]
     hist = witness.get("history") or []
+    if witness.get("kind") == "restart":
+        r = rn.child(cfg, ea, hist, False, "r")
+        if r.get("timeout"):
+            raise RuntimeError("replay child timed out")
+        ctx.case(("replay", key))
+        judge_second_life(r, ea, hist, {"seed": cfg["seed"], "args": cfg["args"], "behavior": cfg["behavior"], "label": cfg["label"]},
+                          lambda k, what, wit: ctx.violation(k, what + " (again)", {**wit, "key": k}), lambda *a: None)
+        return
     if witness.get("kind") == "seed-freshness":
         # the two environments of the witness, the second one repeated until the pairs suffice for the same verdict
         mode = witness.get("mode")
